@@ -282,6 +282,11 @@ def instances(draw, tier):
         opts[f] = draw(st.booleans())
     if opts.get("optimize_with_safe_paths") and opts.get("optimize_with_safe_sequences"):
         opts.pop("optimize_with_safe_sequences")
+    if not kw.get("error_scaling") and draw(st.booleans()):
+        # an error scale factor (0 = "treat as ignored") on one weighted edge: shared by every class that takes scalings
+        es = [[u, v] for u, v, d in case["graph"]["edges"] if "flow" in d]
+        if es:
+            kw["error_scaling"] = [[es[draw(st.integers(0, len(es) - 1))], draw(st.sampled_from([0, 0, 0.5]))]]
     shared = {
         "optimization_options": opts,
         "solver_options": "fixed",
